@@ -433,7 +433,7 @@ impl WriteSource for pr::Expr {
 """
     # ---- ExprKind::write, FuncCall arm: which WriteOpt the arguments are printed with
     fc = X.arm_body(AST, "write", "FuncCall(func_call) =>", name="call_args", after="impl WriteSource for pr::ExprKind")
-    m_n = re.search(r"for \(name, arg\) in &func_call\.named_args \{(.*?)\n                \}", fc.text, re.S)
+    m_n = re.search(r"for \(name, arg\) in (?:&func_call\.named_args|named_args) \{(.*?)\n                \}", fc.text, re.S)
     m_p = re.search(r"for arg in &func_call\.args \{(.*?)\n                \}", fc.text, re.S)
     if not m_n or not m_p or "opt.unbound_expr = true;" not in fc.text[:m_n.start()]:
         raise ExtractionError("FuncCall arm of ExprKind::write: `opt.unbound_expr = true;` followed by the loops over named_args and args not recognised")
